@@ -1,5 +1,6 @@
 // ===================== generator derivation support (sha3 SHAKE256 model, byteorder, precomputation) =====================
 pub uninterp spec fn shake256_xof(input: Seq<u8>, off: nat, n: nat) -> Seq<u8>;      // bytes [off, off+n) of SHAKE256(input)
+pub uninterp spec fn sha3_512(input: Seq<u8>) -> Seq<u8>;                               // SHA3-512
 pub uninterp spec fn p_from_uniform(b: Seq<u8>) -> P;                                  // FromUniformBytes::from_uniform_bytes
 // the j-th point of the generator chain started from `label`
 pub open spec fn chain_point(label: Seq<u8>, j: nat) -> P { p_from_uniform(shake256_xof(b"GeneratorsChain"@ + label, 64 * j, 64)) }
